@@ -8,3 +8,5 @@ for p in "$@"; do
   (cd /verif && timeout 1800 ./check $p ${TIER:-quick} 2>&1 | tail -4; echo "rc=${PIPESTATUS[0]}")
 done
 git -C /repo checkout -- . && git -C /repo status --short | head -3
+# evidence written while the change was applied describes the mutated tree: restore the committed evidence
+git -C /verif checkout -- evidence/ 2>/dev/null
